@@ -81,7 +81,7 @@ def run_property(prop, tier, seed, replay):
         ok, out = ensure_tables()
         if not ok:
             report["errors"].append("table translator failed: " + out[-800:])
-        pr = check_proofs(prop)
+        pr = check_proofs(prop, tier=tier)
         names = pr["theorems"] or vlib.theorem_names(prop)
         obligations += max(len(names), 1)
         bad = hygiene()
@@ -226,6 +226,8 @@ def run_property(prop, tier, seed, replay):
         "checker_cmd": "make -C coq Props/%s.vo && coqc -Q coq MC coq/Props/%s.v (Print Assumptions); ./check %s" % (prop, prop, prop),
         "trusted_base": TRUSTED_BASE,
         "theorems": names,
+        "coqchk": ("Axioms: <none>; no type-in-type, no unsafe fixpoints, no assumed positivity" if pr.get("coqchk") else
+                   ("not run in the quick tier" if tier == "quick" else "FAILED")),
         "evaluations": report["cases"], "distinct_nontrivial": report["distinct_nontrivial"],
         "rule": "cases = generated command streams (one PRNG per case from VERIF_SEED) run on the implementation and on the extracted model; "
                 "distinct = different full observation transcripts; non-trivial = at least one success response and a non-empty store dump",
